@@ -1,6 +1,7 @@
 package c13
 
 import (
+	"encoding/base32"
 	"encoding/base64"
 	"encoding/hex"
 	"fmt"
@@ -14,6 +15,8 @@ import (
 //   - as base64, standard or URL alphabet (16 characters; every window start is tried, so every
 //     alignment of the secret inside a longer base64-encoded stream is covered; padding does not
 //     matter for a 12-byte window),
+//   - as hex with separators between the bytes ("0a 1b 2c", "0a:1b:2c", as fmt's "% x" prints),
+//   - as base32 (standard and extended-hex alphabet, either case; 10-byte windows = 16 characters),
 //
 // in the output itself or in the output with text-format escapes (\xNN, \ooo, \n, \\ ...) undone.
 // A chance hit has probability about 2^-96 per (window, position).
@@ -27,11 +30,12 @@ type scanner struct {
 	raw   map[string]struct{} // 12 bytes
 	hex   map[string]struct{} // 24 chars
 	b64   map[string]struct{} // 16 chars
+	b32   map[string]struct{} // 16 chars (10-byte windows)
 	total int
 }
 
 func newScanner(secrets [][]byte, allowed []string) *scanner {
-	s := &scanner{raw: map[string]struct{}{}, hex: map[string]struct{}{}, b64: map[string]struct{}{}}
+	s := &scanner{raw: map[string]struct{}{}, hex: map[string]struct{}{}, b64: map[string]struct{}{}, b32: map[string]struct{}{}}
 	allow := map[string]struct{}{}
 	for _, a := range allowed {
 		for i := 0; i+window <= len(a); i++ {
@@ -54,9 +58,14 @@ func newScanner(secrets [][]byte, allowed []string) *scanner {
 			s.hex[strings.ToUpper(h)] = struct{}{}
 			s.b64[base64.StdEncoding.EncodeToString(w)] = struct{}{}
 			s.b64[base64.URLEncoding.EncodeToString(w)] = struct{}{}
+			for _, enc := range []*base32.Encoding{base32.StdEncoding, base32.HexEncoding} {
+				e := enc.EncodeToString(w[:10])
+				s.b32[e] = struct{}{}
+				s.b32[strings.ToLower(e)] = struct{}{}
+			}
 		}
 	}
-	s.total = len(s.raw) + len(s.hex) + len(s.b64)
+	s.total = len(s.raw) + len(s.hex) + len(s.b64) + len(s.b32)
 	return s
 }
 
@@ -119,7 +128,25 @@ func (s *scanner) findIn(text []byte) string {
 	if i, ok := slide(text, 16, s.b64); ok {
 		return fmt.Sprintf("base64 %q at offset %d", text[i:i+16], i)
 	}
+	if i, ok := slide(text, 16, s.b32); ok {
+		return fmt.Sprintf("base32 %q at offset %d", text[i:i+16], i)
+	}
 	return ""
+}
+
+// withoutByteSeparators removes the characters that hex dumps put between bytes; nil when the text
+// has none of them.
+func withoutByteSeparators(text []byte) []byte {
+	if !strings.ContainsAny(string(text), " :-") {
+		return nil
+	}
+	out := make([]byte, 0, len(text))
+	for _, b := range text {
+		if b != ' ' && b != ':' && b != '-' {
+			out = append(out, b)
+		}
+	}
+	return out
 }
 
 // find returns a description of the first hit, "" if there is none.
@@ -130,6 +157,11 @@ func (s *scanner) find(text []byte) string {
 	if un := unescape(text); un != nil {
 		if hit := s.findIn(un); hit != "" {
 			return hit + " (after undoing text escapes)"
+		}
+	}
+	if compact := withoutByteSeparators(text); compact != nil {
+		if i, ok := slide(compact, 2*window, s.hex); ok {
+			return fmt.Sprintf("hex with separators between the bytes: %q", compact[i:i+2*window])
 		}
 	}
 	for _, run := range numberRuns(text) {
@@ -276,6 +308,10 @@ func selfCheckScanner() error {
 			"octal-text": []byte(octalEscape(stream)),
 			"fmt-%v":     []byte(fmt.Sprintf("key &{{%v} 7 [1 2 3]}", stream)),
 			"fmt-%#v":    []byte(fmt.Sprintf("%#v", stream)),
+			"fmt-% x":    []byte(fmt.Sprintf("key % x end", stream)),
+			"hex-colons": []byte(strings.ReplaceAll(fmt.Sprintf("% X", stream), " ", ":")),
+			"base32":     []byte(base32.StdEncoding.EncodeToString(stream)),
+			"base32hex":  []byte(strings.ToLower(base32.HexEncoding.WithPadding(base32.NoPadding).EncodeToString(stream))),
 		}
 		for name, text := range plants {
 			if sc.find(text) == "" {
